@@ -134,10 +134,27 @@ inline double plen(const std::vector<P> &r) { LD l = 0; for (size_t i = 1; i < r
 inline std::vector<P> toPts(const Avoid::PolyLine &r) { std::vector<P> v; for (size_t i = 0; i < r.size(); i++) v.push_back({r.ps[i].x, r.ps[i].y}); return v; }
 inline std::string ptsStr(const std::vector<P> &r) { std::string s; for (auto &p : r) s += fmt("(%.10g,%.10g)", p.x, p.y); return s; }
 
+// The routing polygon libavoid uses for a non-rectangular shape with a buffer: every edge line moved outwards by b and
+// adjacent lines intersected (an unlimited mitre: at an acute vertex the polygon reaches b / sin(angle/2) beyond the vertex).
+// Recomputed here for convex polygons whose interior is on the left of every edge (pointInConvex's convention).
+inline Poly mitredOffset(const Poly &poly, double b) {
+    size_t n = poly.size();
+    std::vector<std::pair<LD, LD>> nrm(n);
+    for (size_t i = 0; i < n; i++) { const P &e0 = poly[i], &e1 = poly[(i + 1) % n]; LD dx = (LD)e1.x - e0.x, dy = (LD)e1.y - e0.y, len = std::hypot(dx, dy); nrm[i] = {dy / len, -dx / len}; }
+    Poly out;
+    for (size_t i = 0; i < n; i++) {
+        auto &a = nrm[(i + n - 1) % n], &c = nrm[i];
+        LD R = 1 + a.first * c.first + a.second * c.second;
+        if (R < 1e-12) R = 1e-12;
+        out.push_back(P{(double)(poly[i].x + (a.first + c.first) * b / R), (double)(poly[i].y + (a.second + c.second) * b / R)});
+    }
+    return out;
+}
+
 // Validity of one route against the shapes (C03): >=2 points, joins the attachments, no segment through an interior
 // of a shape that does not contain one of the two attachment points.  margin: see callers.
 inline std::string routeInvalid(const std::vector<P> &r, const P &src, const P &dst, const std::vector<Poly> &shapes, double margin,
-                                const std::vector<char> *exempt = nullptr, bool endsMayMove = false) {
+                                const std::vector<char> *exempt = nullptr, bool endsMayMove = false, double buf = 0) {
     if (r.size() < 2) return fmt("route has %zu points", r.size());
     if (endsMayMove) { /* nudgeOrthogonalSegmentsConnectedToShapes is documented to nudge the end segments */ }
     else if (!(r.front() == src)) return fmt("route starts at (%.10g,%.10g), source attachment is (%.10g,%.10g)", r.front().x, r.front().y, src.x, src.y);
@@ -150,7 +167,10 @@ inline std::string routeInvalid(const std::vector<P> &r, const P &src, const P &
             if (segEntersConvex(r[i - 1], r[i], shapes[s], margin)) {
                 int onVerts = 0;     // known finding F26: a sight line through two vertices of one polygon is taken as free
                 for (auto &vtx : shapes[s]) if (ptSegDist(vtx, r[i - 1], r[i]) <= 1e-9) onVerts++;
-                return fmt("segment (%.10g,%.10g)-(%.10g,%.10g) passes through the interior of shape %zu%s", r[i - 1].x, r[i - 1].y, r[i].x, r[i].y, s, onVerts >= 2 ? " [through two of its vertices]" : "");
+                // known finding F37: an end point outside the shape but inside its mitred routing polygon makes the router treat the shape as containing it
+                bool inZone = false;
+                if (buf > 0 && shapes[s].size() >= 3) { Poly z = mitredOffset(shapes[s], buf); inZone = pointInConvex(src, z, 1e-9) || pointInConvex(dst, z, 1e-9); }
+                return fmt("segment (%.10g,%.10g)-(%.10g,%.10g) passes through the interior of shape %zu%s%s", r[i - 1].x, r[i - 1].y, r[i].x, r[i].y, s, onVerts >= 2 ? " [through two of its vertices]" : "", inZone ? " [an end point lies inside this shape's mitred buffer polygon]" : "");
             }
     }
     return "";
